@@ -42,6 +42,12 @@ Definition D_stale_declarations := Eval vm_compute in stale_declarations. Print 
 Definition D_guards := Eval vm_compute in (List.length guards_declared, List.length guards_inferred, List.length entries).
 Print D_guards.
 Definition D_confined := Eval vm_compute in confined guards fetchers. Print D_confined.
+Definition D_closures_confined := Eval vm_compute in fetcher_closures_confined fetcher_closures. Print D_closures_confined.
+Definition D_bad_closures := Eval vm_compute in
+  filter (fun x : string * string * list string => match snd x with [] => false | _ => true end) fetcher_closures.
+Print D_bad_closures.
+Definition D_unlock_deferred := Eval vm_compute in wrappers_unlock_deferred registered wrapper_unlocks. Print D_unlock_deferred.
+Definition D_wrapper_unlocks := Eval vm_compute in wrapper_unlocks. Print D_wrapper_unlocks.
 Definition D_unconfined := Eval vm_compute in
   map (fun x => fst (fst x)) (filter (fun x => negb (confined guards [x])) fetchers).
 Print D_unconfined.
